@@ -167,7 +167,6 @@ func (tree *ParserT) parseStatement(exec bool) error {
 					}
 				} else {
 					if len(tree.statement.paramTemp) > 0 {
-						tree.statement.paramTemp = tree.statement.paramTemp[:len(tree.statement.paramTemp)-2]
 						if err := tree.nextParameter(); err != nil {
 							return err
 						}
@@ -226,7 +225,6 @@ func (tree *ParserT) parseStatement(exec bool) error {
 					}
 				} else {
 					if len(tree.statement.paramTemp) > 0 {
-						tree.statement.paramTemp = tree.statement.paramTemp[:len(tree.statement.paramTemp)-2]
 						if err := tree.nextParameter(); err != nil {
 							return err
 						}
